@@ -104,20 +104,4 @@ theorem nextBar_total (s : MovingAverageConvergenceDivergence F) (b : Bar F) (h 
       r.1.slow_ema.period = s.slow_ema.period ∧ r.1.signal_ema.period = s.signal_ema.period := by
   rw [nextBar_eq]; exact next_total s b.close h
 
-theorem reset_eq (s : MovingAverageConvergenceDivergence F) (h : WF s) :
-    s.reset = some (fresh s.fast_ema.period s.slow_ema.period s.signal_ema.period) := by
-  unfold reset
-  simp [ExponentialMovingAverage.reset_eq _ h.fast, ExponentialMovingAverage.reset_eq _ h.slow,
-    ExponentialMovingAverage.reset_eq _ h.signal, fresh]
-
-theorem display_eq (fmt : F → String) (s : MovingAverageConvergenceDivergence F) :
-    display fmt s = "MACD(" ++ toString s.fast_ema.period ++ ", " ++ toString s.slow_ema.period ++
-      ", " ++ toString s.signal_ema.period ++ ")" := rfl
-
-theorem default_eq :
-    (default_ : Option (MovingAverageConvergenceDivergence F)) = some (fresh 12 26 9) := by
-  unfold default_
-  rw [new_eq]
-  simp [unwrap]
-
 end TaRs.Gen.MovingAverageConvergenceDivergence
